@@ -460,6 +460,7 @@ func (g *Gen) callWithSpec(st *State, c *ssa.Call, sp *FuncSpec, fn *ssa.Functio
 		post.vars[k] = v
 	}
 	g.bindResults(post, sig.Results(), res, fn)
+	g.applyPostUpdates(st, pre, post, sp)
 	for _, cl := range sp.Ensures {
 		g.assume(st.reach, g.evalBool(post, cl.E))
 	}
@@ -649,16 +650,30 @@ func fieldByName(t types.Type, name string) (fieldRef, bool) {
 }
 
 // applyUpdates defines new ghost versions per the callee's `updates` clauses.
+// applyPostUpdates: ghost updates whose body is evaluated in the post-state (heap after the call,
+// ghost state after the ordinary updates) and may mention the results.
+func (g *Gen) applyPostUpdates(st *State, pre *State, env *Env, sp *FuncSpec) {
+	if len(sp.PostUpdates) == 0 {
+		return
+	}
+	eval := st.clone() // all bodies see the same state
+	g.applyUpdateList(st, eval, pre, env, sp, sp.PostUpdates)
+}
+
 func (g *Gen) applyUpdates(st *State, pre *State, env *Env, sp *FuncSpec) {
-	for _, u := range sp.Updates {
+	g.applyUpdateList(st, pre, pre, env, sp, sp.Updates)
+}
+
+func (g *Gen) applyUpdateList(st *State, evalSt *State, pre *State, env *Env, sp *FuncSpec, list []Update) {
+	for _, u := range list {
 		gf := g.P.ghostVar(u.Ghost)
 		if gf == nil {
 			unsup("updates of unknown ghost var %s", u.Ghost)
 		}
 		name := "ghost|" + gf.Name
 		g.setHeapSort(name, g.P.ghostSort(gf))
-		// body evaluated in pre-state with bound params
-		benv := g.newEnv(pre, pre, sp.Pkg)
+		// body evaluated in evalSt (the pre-state for `updates`) with bound params
+		benv := g.newEnv(evalSt, pre, sp.Pkg)
 		for k, v := range env.vars {
 			benv.vars[k] = v
 		}
@@ -710,7 +725,8 @@ func (g *Gen) havocStructElems(st *State, et types.Type, arr string) {
 		old := g.heapSym(st.heap, lf.name)
 		nw := g.fresh(lf.name, srt)
 		if lf.nested == "" {
-			g.emit(fmt.Sprintf("(assert (forall ((p Int)) (! (=> (not (and (= (%s p) %s) (= (subtag p) %d))) (= (select %s p) (select %s p))) :pattern ((select %s p)))))", inva, arr, tag, nw, old, nw))
+			// element addresses are negative; a top-level object (p >= 0) is never an element
+			g.emit(fmt.Sprintf("(assert (forall ((p Int)) (! (=> (or (>= p 0) (not (and (= (%s p) %s) (= (subtag p) %d)))) (= (select %s p) (select %s p))) :pattern ((select %s p)))))", inva, arr, tag, nw, old, nw))
 		}
 		st.heap.m[lf.name] = nw
 	}
